@@ -197,30 +197,11 @@ static var make_table(int kind) {
 static long n_full = 0, n_x = 0;
 #define XF(sig, ...) do { if (++n_x <= 200) { char xb_[600]; snprintf(xb_, sizeof xb_, __VA_ARGS__); X("sig=%s line=%zu what=%s", sig, cur_line, xb_); } } while (0)
 
-/* white-box invariants + iteration + every binding through get/mem; O(nslots) */
+/* len, iteration, every binding through get/mem, then the white-box invariants of the slot array; O(nslots) */
 static void verify(var tab, int ti) {
   struct Table* t = tab; int kind = kinds[ti]; OMap* m = &omap[ti]; map_init(m);
   n_full++;
-  size_t occ = 0; epoch++;
-  for (size_t i = 0; i < t->nslots; i++) {
-    uint64_t h = Table_Key_Hash(t, i);
-    if (!h) continue;
-    occ++;
-    char nm[40]; slot_key_name(t, kind, i, nm, sizeof nm);
-    if (h - 1 >= t->nslots || h - 1 != hash(Table_Key(t, i)) % t->nslots) XF("table-wb-home", "slot %zu key %s stores home %" PRIu64 " but hash %% nslots = %" PRIu64, i, nm, h - 1, hash(Table_Key(t, i)) % t->nslots);
-    uint64_t d = Table_Probe(t, i, h);
-    if (d > 0) {
-      size_t pi = (i + t->nslots - 1) % t->nslots; uint64_t ph = Table_Key_Hash(t, pi);
-      if (!ph) XF("table-wb-order", "slot %zu key %s at distance %" PRIu64 " follows an empty slot", i, nm, d);
-      else if (Table_Probe(t, pi, ph) + 1 < d) XF("table-wb-order", "slot %zu key %s at distance %" PRIu64 " follows an entry at distance %" PRIu64, i, nm, d, Table_Probe(t, pi, ph));
-    }
-    ONode* n = map_find(m, nm);
-    if (!n) XF("table-wb-stray", "slot %zu holds key %s which is not bound", i, nm);
-    else if (n->stamp == epoch) XF("table-wb-dup", "key %s is stored in two slots", nm);
-    else { n->stamp = epoch; if (n->val != slot_val(t, kind, i)) XF("table-wb-val", "key %s stored with value %" PRId64 " want %" PRId64, nm, slot_val(t, kind, i), n->val); }
-  }
-  if (occ != t->nitems) XF("table-wb-count", "nitems %zu but %zu occupied slots", t->nitems, occ);
-  if (t->nslots ? t->nitems >= t->nslots : t->nitems != 0) XF("table-wb-full", "nitems %zu nslots %zu: no empty slot", t->nitems, t->nslots);
+  /* (1) public interface */
   if (len(tab) != m->count) XF("table-len", "len %zu want %zu", len(tab), m->count);
   /* public interface: foreach yields each key exactly once, get/mem agree for every binding */
   epoch++; size_t seen_n = 0;
@@ -241,6 +222,27 @@ static void verify(var tab, int ti) {
     else if (val_int(kind, r) != n->val) XF("table-get", "get %s = %" PRId64 " want %" PRId64, n->name, val_int(kind, r), n->val);
     if (!mem(tab, KEYOBJ(kind, k))) XF("table-mem", "mem of bound key %s is false", n->name);
   }
+  /* (2) white box */
+  size_t occ = 0; epoch++;
+  for (size_t i = 0; i < t->nslots; i++) {
+    uint64_t h = Table_Key_Hash(t, i);
+    if (!h) continue;
+    occ++;
+    char nm[40]; slot_key_name(t, kind, i, nm, sizeof nm);
+    if (h - 1 >= t->nslots || h - 1 != hash(Table_Key(t, i)) % t->nslots) XF("table-wb-home", "slot %zu key %s stores home %" PRIu64 " but hash %% nslots = %" PRIu64, i, nm, h - 1, hash(Table_Key(t, i)) % t->nslots);
+    uint64_t d = Table_Probe(t, i, h);
+    if (d > 0) {
+      size_t pi = (i + t->nslots - 1) % t->nslots; uint64_t ph = Table_Key_Hash(t, pi);
+      if (!ph) XF("table-wb-order", "slot %zu key %s at distance %" PRIu64 " follows an empty slot", i, nm, d);
+      else if (Table_Probe(t, pi, ph) + 1 < d) XF("table-wb-order", "slot %zu key %s at distance %" PRIu64 " follows an entry at distance %" PRIu64, i, nm, d, Table_Probe(t, pi, ph));
+    }
+    ONode* n = map_find(m, nm);
+    if (!n) XF("table-wb-stray", "slot %zu holds key %s which is not bound", i, nm);
+    else if (n->stamp == epoch) XF("table-wb-dup", "key %s is stored in two slots", nm);
+    else { n->stamp = epoch; if (n->val != slot_val(t, kind, i)) XF("table-wb-val", "key %s stored with value %" PRId64 " want %" PRId64, nm, slot_val(t, kind, i), n->val); }
+  }
+  if (occ != t->nitems) XF("table-wb-count", "nitems %zu but %zu occupied slots", t->nitems, occ);
+  if (t->nslots ? t->nitems >= t->nslots : t->nitems != 0) XF("table-wb-full", "nitems %zu nslots %zu: no empty slot", t->nitems, t->nslots);
 }
 
 static void probe_ledger(var* tabs) {
